@@ -60,6 +60,15 @@ def owner_of(tag, events, idx):
             return "C10"
         if what == "RetNext" and ev.get("r") in ("noop", "done"):
             return "C10"
+        if what in ("RetNext", "Inner"):
+            # a return from next() that follows a call made outside Active is the stream protocol's business
+            j = idx - 2
+            while j >= 0 and events[j].get("ev") != "Reset":
+                if events[j].get("o") == ev.get("o") and events[j].get("ev") == "CallNext":
+                    if not events[j].get("active", True):
+                        return "C10"
+                    break
+                j -= 1
         if what == "Panic":
             j = idx - 2
             while j >= 0 and events[j].get("ev") != "Reset":
@@ -137,6 +146,18 @@ def run_lane(pid, tier, mc, profiles, rule, selftests, assumptions=(), extra=Non
     """mc: list of (name, module, cfg, timeout, workers); profiles: list of (profile, count)."""
     chk = C.Check(pid, "model_checking", tier)
     C.build_harness()
+    lane_into(chk, pid, mc, profiles, rule, selftests, scripts=scripts)
+    if extra:
+        extra(chk)
+    chk.assumptions += ["TLC and the CommunityModules Json reader are correct",
+                        "Tokio's current-thread scheduler, paused clock and seeded select! behave as documented",
+                        "the hooks sit at the linearization points named in DESIGN.md 4.1 (checked by the corruption self-tests)",
+                        "the scripted server and mock transport of the harness are correct"] + list(assumptions)
+    return chk.finish()
+
+
+def lane_into(chk, pid, mc, profiles, rule, selftests, scripts=None):
+    """The connection lane proper, reporting into an existing Check (used by C10 in addition to its own lane)."""
     for name, module, cfg, tmo, workers in mc:
         res = C.tlc(module, cfg, os.path.join(chk.dir, name + ".out"), workers=workers, timeout=tmo)
         chk.model(name + "/" + cfg, res)
@@ -187,13 +208,6 @@ def run_lane(pid, tier, mc, profiles, rule, selftests, assumptions=(), extra=Non
                 run_selftest(chk, path, name, fn, expect)
         else:
             chk.notes.append("binding self-test skipped: the unmodified trace already differs from the model")
-    if extra:
-        extra(chk)
-    chk.assumptions += ["TLC and the CommunityModules Json reader are correct",
-                        "Tokio's current-thread scheduler, paused clock and seeded select! behave as documented",
-                        "the hooks sit at the linearization points named in DESIGN.md 4.1 (checked by the corruption self-tests)",
-                        "the scripted server and mock transport of the harness are correct"] + list(assumptions)
-    return chk.finish()
 
 
 def run_selftest(chk, path, name, fn, expect_tag):
